@@ -66,6 +66,7 @@ type smaWorld struct {
 	impostor int
 	reports  int
 	cfgAddrs []string
+	keptReports []*retained
 }
 
 var smaHostname = "srv.dsim.example"
@@ -174,12 +175,28 @@ func newSmaWorld(e *Env, prop string) *smaWorld {
 func (w *smaWorld) drainReports() {
 	for {
 		select {
-		case <-w.mach.ErrorReports():
+		case r := <-w.mach.ErrorReports():
 			w.reports++
+			if r != nil && r.Message != nil {
+				// the application keeps the message an error report handed to it
+				w.keptReports = append(w.keptReports, &retained{src: "error-report", m: r.Message, fp: fingerprint(r.Message), index: len(w.keptReports)})
+				w.e.Probe("error-report-message-retained")
+			}
 		default:
 			return
 		}
 	}
+}
+
+// checkKept re-fingerprints every message obtained through an error report (C06).
+func (w *smaWorld) checkKept(when string) bool {
+	for _, r := range w.keptReports {
+		if now := fingerprint(r.m); now != r.fp {
+			w.e.Fail("C06/retained-message-changed/error-report", "message #%d handed out through an ErrorReport changed %s", r.index, when)
+			return false
+		}
+	}
+	return true
 }
 
 // selApp is the reference dispatch for an application message on a state machine.
@@ -389,7 +406,7 @@ func (w *smaWorld) step(ci int, k int, split bool) bool {
 	e.Quiesce()
 	w.drainReports()
 	c.collect(e, w.prop)
-	if e.Failed() {
+	if e.Failed() || !w.checkKept("after further messages were read") {
 		return false
 	}
 	// run the reference model over the items
@@ -643,18 +660,9 @@ func (w *smaWorld) checkCEA(c *smaConn, it *smaItem, a *RefMsg) bool {
 			return false
 		}
 		adv := advertisedApps(*a)
-		for _, id := range it.spec.sharedIDs() {
-			if id == 0xffffffff {
-				continue
-			}
-			okAdv := false
-			for _, typ := range []string{"auth", "acct"} {
-				if refSupports(id, typ) && adv[appKey{id, typ}] {
-					okAdv = true
-				}
-			}
-			if !okAdv {
-				e.Fail("C11/cea-does-not-advertise-shared-app", "%s: success CEA does not advertise shared application %d", c.name, id)
+		for _, k := range it.spec.sharedApps() {
+			if !adv[k] {
+				e.Fail("C11/cea-does-not-advertise-shared-app", "%s: success CEA does not advertise the shared application %d (%s)", c.name, k.id, k.typ)
 				return false
 			}
 		}
